@@ -43,8 +43,14 @@ func SystemFonts(logger Logger, cacheDir string) ([]Footprint, error) {
 		return nil, err
 	}
 
-	// systemFonts is read-only, so may be used concurrently
-	return systemFonts.flatten(), nil
+	// systemFonts is read-only, so may be used concurrently:
+	// the caller gets its own copy of the sets (they have exported mutators)
+	out := systemFonts.flatten()
+	for i := range out {
+		out[i].Runes = append(RuneSet(nil), out[i].Runes...)
+		out[i].Scripts = append(ScriptSet(nil), out[i].Scripts...)
+	}
+	return out, nil
 }
 
 // FontMap provides a mechanism to select a [font.Face] from a font description.
